@@ -177,9 +177,31 @@ def _limit_flow(ctx, cfg, f, limit):
         if LIMIT in obj.attrs and limit is not None:
             obj.attrs[LIMIT] = Aff.sym('renderer.' + LIMIT)
         Aff.on_truth = lambda a: rec['truth'].append(repr(a)) if LIMIT in a.terms else None
+        # the children are rendered through the renderer's dispatch table: what a child's render method is handed is
+        # recorded there, so that a helper between this method and the dispatch (one that subtracts a reserved width,
+        # say) is interpreted like the method itself
+        class ChildRenderer(AbstractValue):
+            def abs_call(self, interp, args, kwargs):
+                b = kwargs.get(LIMIT, args[1] if len(args) > 1 else 'MISSING')
+                rec['budgets'].append(('<child render method>', b))
+                return Lines(b)
+
+        class Dispatch(AbstractValue):
+            def abs_getitem(self, interp, idx):
+                return ChildRenderer()
+
+            def abs_getattr(self, interp, name):
+                return _AbsBound(self, name)
+
+            def abs_method(self, interp, name, args, kwargs):
+                return ChildRenderer() if name == 'get' else Unknown('render_map.' + name)
+        if 'render_map' in obj.attrs:
+            obj.attrs['render_map'] = Dispatch()
         for name, g in cfg.cls_methods_with_limit:
             if g is f or not _produces_lines(cfg, g):
                 continue        # arithmetic helpers on the limit are interpreted, not stubbed
+            if _dispatches(g) and g not in {v for v in cfg.render_map.values() if isinstance(v, FuncInfo)}:
+                continue        # a helper that only walks the children and dispatches: interpreted
 
             def hook(interp, fi, args, kwargs, g=g):
                 ps = g.params()
@@ -248,6 +270,14 @@ def _length_of(v):
             total = total.add(l)
         return total
     return None
+
+
+def _dispatches(g):
+    """The method looks render methods up in the dispatch table itself (self.render_map[...])."""
+    for n in walk_function(g.node):
+        if isinstance(n, ast.Subscript) and isinstance(n.value, ast.Attribute) and n.value.attr == 'render_map':
+            return True
+    return False
 
 
 def _produces_lines(cfg, g):
